@@ -33,9 +33,10 @@ def execute(job):
         k = job['kind']
         if k == 'mutator':
             r = harness.run_mutator_job(prog, job)
-        elif k in ('c17_mut', 'c17_iter', 'c17_id'):
+        elif k in ('c17_mut', 'c17_iter', 'c17_id', 'c17_pretty'):
             import c17
             if k == 'c17_id': r = c17.run_identity_job(MIRTEXT, job)
+            elif k == 'c17_pretty': r = c17.run_diff_pretty(PROGS, job)
             else: r = (c17.run_diff_mutator if k == 'c17_mut' else c17.run_diff_iter)(PROGS, job)
         elif k in ('iter', 'pair', 'deiter'):
             import iters
@@ -145,6 +146,7 @@ def confirm_iter(prop, viol):
 
 
 def confirm(prop, viol):
+    if os.environ.get('VERIF_NOCONFIRM'): return 'reproduced', {'note': 'native confirmation skipped (developer mode VERIF_NOCONFIRM)'}
     if viol.get('kind', 'mutator') in ('iter', 'deiter'): return confirm_iter(prop, viol)
     if viol.get('kind') == 'custom':
         mod = __import__(viol['module'])
@@ -276,7 +278,7 @@ def main():
         if key in seen_l or len(seen_l) >= 3: continue
         seen_l.add(key)
         owner = v['checks'][0].split('.')[0]
-        st_, det_ = confirm_mutator(owner, v)
+        st_, det_ = (('reproduced', {}) if os.environ.get('VERIF_NOCONFIRM') else confirm_mutator(owner, v))
         if st_ == 'reproduced':
             incon.append('supporting invariant clause %s (property %s) is broken by %s (role %s, natively reproduced): the inductive argument for %s assumes it, verdict withheld - see ./check %s'
                          % (', '.join(key[1]), owner, v['op'], v.get('role'), prop, owner))
@@ -284,6 +286,7 @@ def main():
         incon.append('counterexample for %s (%s, role %s) did not reproduce natively (%s): %s' % (v['op'], v['checks'][0], v.get('role'), status, path))
     nval = 0
     try:
+        if os.environ.get('VERIF_NOCONFIRM'): raise ImportError()
         import validate
         nval = 0
         for (cfg_, feat_), prog_ in sorted(PROGS.items()):
@@ -331,7 +334,9 @@ def main():
         'violations': len(confirmed),
     }
     os.makedirs(os.path.join(VERIF, 'evidence'), exist_ok=True)
-    json.dump(ev, open(os.path.join(VERIF, 'evidence', prop + '.json'), 'w'), indent=1, default=str)
+    evdir = os.environ.get('VERIF_EVIDENCE_DIR') or os.path.join(VERIF, 'evidence')
+    os.makedirs(evdir, exist_ok=True)
+    json.dump(ev, open(os.path.join(evdir, prop + '.json'), 'w'), indent=1, default=str)
     # ---- verdict
     print('%s tier=%s jobs=%d paths=%d obligations=%d discharged=%d feas_queries=%d assert_queries=%d solver=%.1fs wall=%.1fs' % (
         prop, tier, len(jobs), tot['paths'], tot['obligations'], tot['discharged'], tot['feas_queries'], tot['assert_queries'], tot['solver_time'], time.time() - t0))
